@@ -45,6 +45,7 @@ type GenOpts struct {
 	UnionDefault           bool // at most one default in a union
 	TypedefChains          bool // extra typedef-of-typedef chains (crossing files)
 	PrefixNames            bool // definitions whose name equals an include prefix
+	PrefixEnums            bool // with PrefixNames: some of them are enums used as Prefix.VALUE in a constant (the include stays unused)
 	TypedefContainerConsts bool // non-empty list/map literals whose declared type is a typedef of a container (crashes the Go backend: known finding)
 	ForeignStructIdents    bool // identifiers inside literals of structs defined in another file (Go backend resolves them in the wrong file: rejected)
 	SameNS                 bool // some files share one go namespace (one Go package from several IDL files)
@@ -1099,7 +1100,19 @@ func Generate(rng *vlib.Rng, o GenOpts) *Program {
 		}
 		if o.PrefixNames && len(f.Includes) > 0 && rng.Chance(1, 3) {
 			pn := f.Includes[rng.Intn(len(f.Includes))].File.Prefix()
-			if !g.used[f][pn] && !strings.Contains(pn, ".") { // a definition named "base.v1" is no realistic name
+			if o.PrefixEnums && !g.used[f][pn] && !strings.Contains(pn, ".") && rng.Bool() {
+				// enum X next to include "X.thrift": X.VALUE denotes the local enum member, not something of the include
+				g.used[f][pn] = true
+				e := &Def{Kind: KEnum, Name: pn, File: f}
+				for k, nm := range []string{"PFX_LOW", "PFX_HIGH"} {
+					e.EnumVals = append(e.EnumVals, &EnumVal{Name: nm, Explicit: true, Value: int64(k + 1)})
+				}
+				ev := e.EnumVals[rng.Intn(2)]
+				c := &Def{Kind: KConst, File: f, Type: &Type{Name: pn, Ref: e},
+					Value: &Value{Kind: VIdent, Ident: pn + "." + ev.Name, ToEnum: e, ToEnumVal: ev}}
+				c.Name = g.globalName(f, []string{"PFX_PICK", "pfx_choice"}, nil, nil)
+				f.Defs = append(f.Defs, e, c)
+			} else if !g.used[f][pn] && !strings.Contains(pn, ".") { // a definition named "base.v1" is no realistic name
 
 				g.used[f][pn] = true
 				d := g.genStructLike(f, KStruct)
@@ -1189,7 +1202,41 @@ func Generate(rng *vlib.Rng, o GenOpts) *Program {
 	if o.SameBase && o.SameBaseClash {
 		g.sameBaseClash()
 	}
+	if o.PrefixEnums {
+		g.prefixEnumOnUnusedInclude()
+	}
 	return g.p
+}
+
+// prefixEnumOnUnusedInclude: a file that includes X.thrift without referring to it gets a local enum X and a
+// constant written X.MEMBER.  The identifier denotes the local member, so the include stays unused.
+func (g *gen) prefixEnumOnUnusedInclude() {
+	for _, f := range g.p.Files {
+		used := UsedIncludes(f)
+		for i, inc := range f.Includes {
+			pn := inc.File.Prefix()
+			if used[i] || strings.Contains(pn, ".") || f.Find(pn) != nil || g.used[f][pn] || g.used[f][normName(pn)] || !g.rng.Chance(1, 2) {
+				continue
+			}
+			dup := 0
+			for _, other := range f.Includes {
+				if other.File.Prefix() == pn {
+					dup++
+				}
+			}
+			// the included file must not have a constant of the member's name (that would be ambiguous)
+			if dup != 1 || inc.File.Find("PFX_ONLY_LOCAL") != nil {
+				continue
+			}
+			g.used[f][pn] = true
+			e := &Def{Kind: KEnum, Name: pn, File: f, EnumVals: []*EnumVal{{Name: "PFX_ONLY_LOCAL", Explicit: true, Value: 7}}}
+			c := &Def{Kind: KConst, File: f, Type: &Type{Name: pn, Ref: e},
+				Value: &Value{Kind: VIdent, Ident: pn + ".PFX_ONLY_LOCAL", ToEnum: e, ToEnumVal: e.EnumVals[0]}}
+			c.Name = g.globalName(f, []string{"PFX_UNUSED_PICK", "pfx_unused_choice"}, nil, nil)
+			f.Defs = append(f.Defs, e, c)
+			break
+		}
+	}
 }
 
 // sameBaseClash: when exactly one file includes two files with one base name, the later of the two also gets a
